@@ -134,6 +134,22 @@ def task(states):
                     r2 = U.searchsorted(bl[None, :], x)
                     if int(r2) != int(r):
                         fail("bin", "second searchsorted call on the same locations gives %d, first gave %d" % (int(r2), int(r)))
+                # locations and inputs of different precision (the same lattice in tenths: not representable):
+                # the bin is the half-open bin of the input's actual value among the locations' actual values
+                for ldt, xdt in ((torch.float64, torch.float32), (torch.float32, torch.float64)):
+                    bl = torch.tensor([v / 10.0 for v in locs], dtype=torch.float64).to(ldt)
+                    x = torch.tensor([xv / 10.0], dtype=torch.float64).to(xdt)
+                    lv, xval = [float(v) for v in bl], float(x)
+                    if not (lv[0] <= xval <= lv[-1]):
+                        continue
+                    want = max(k for k in range(len(lv) - 1) if lv[k] <= xval)
+                    try:
+                        got = int(U.searchsorted(bl[None, :], x))
+                    except Exception as e:  # noqa
+                        fail("bin", "searchsorted(%s locations, %s input) raised %r" % (str(ldt).split(".")[-1], str(xdt).split(".")[-1], e))
+                        continue
+                    if got != want and not (xval == lv[got] if 0 <= got < len(lv) else False):
+                        fail("bin", "searchsorted(%s locations %s, %s input %.10g) = %d, the half-open bin of that value is %d" % (str(ldt).split(".")[-1], lv, str(xdt).split(".")[-1], xval, got, want))
             elif f == "cbrt":
                 cv = float(c["c"])
                 for dtype in (torch.float32, torch.float64):
